@@ -109,7 +109,7 @@ PLAN = {
     "C04": dict(
         stages=[ls("C04", q=400), ls_async_quick("C04"), ga()],
         rule=LS + "; max_cost == sum of the per-key charges exactly (tight) so nothing may ever be refused or evicted || " + GA + " (clause: below capacity nothing reaches on_evict before the deadline of the insert that wrote it, or without a TTL)",
-        clauses=["every key: presence and value id equal the model after every step", "no on_reject, on_evict only for elapsed TTLs", "insert returns true", "nothing swept before its deadline"],
+        clauses=["every key: presence and value id equal the model after every step", "no on_reject, on_evict only for elapsed TTLs", "insert returns true", "nothing swept before its deadline", "in a third of the histories with the internal overhead ignored one key has cost 0 (an entry charged nothing is admitted, swept and re-admitted like any other)"],
         minimum=dict(quick=dict(ls_histories=300, ls_updates=3000, ls_ticks=10000)),
         assumptions=[],
     ),
@@ -156,7 +156,7 @@ PLAN = {
     "C09": dict(
         stages=[ls("C09", q=400), ls_async_quick("C09"), ho("C09", q=60), hammer(), ga()],
         rule=LS + "; validators: never / only-greater / new-id-even / value-dependent; Coster on",
-        clauses=["insert_if_present on absent => false, no callback, cache unchanged", "on resident => update of value and cost", "vetoed insert / insert_with_ttl / insert_if_present: value and remaining TTL unchanged, still reclaimed at the old deadline",
+        clauses=["insert_if_present on absent => false, no callback, cache unchanged", "on resident => update of value and cost (after an insert_if_present that returned true the key is charged the new cost: a charge mismatch on that key is C09's as well as C16's)", "vetoed insert / insert_with_ttl / insert_if_present: value and remaining TTL unchanged, still reclaimed at the old deadline",
                  "expired-but-unswept key: both outcomes accepted (the statement does not decide it)",
                  "concurrent / gated (also while the key's first insert is still buffered): insert_if_present returns true only if it replaced a resident value inside the call; a false one leaves no trace of its value"],
         minimum=dict(quick=dict(ls_vetoes=1000, ls_updates=2000, ho_c09_replacements_checked_against_validator=2000)),
@@ -242,7 +242,8 @@ PLAN = {
              "(c) " + LS + " with a key builder that maps keys 2i and 2i+1 to one index with distinct non-zero conflicts; (d) " + HO + " under the same colliding key builder (buffered inserts / removes of colliding keys racing each other; only the value clauses are decided there)",
         clauses=["same (index, conflict) for String/&str, Vec<u8>/&[u8], u64 by value/reference, repeated", "build_key == (hash_index, hash_conflict)",
                  "TransparentKeyBuilder: (x as u64, 0)", "distinct integer keys => distinct indices",
-                 "under index collision: no operation on one key returns, overwrites or removes the other key's value"],
+                 "under index collision: no operation on one key returns, overwrites or removes the other key's value",
+                 "lockstep histories with an odd index base: the harness key builder overrides build_key only and leaves hash_conflict at its documented default 0 (every path of the cache has to go through build_key)"],
         minimum=dict(quick=dict(c18_default_builder_checks=10000, c18_transparent_exhaustive_u16=65536, ls_histories=200)),
         assumptions=["under index collisions the policy (keyed by index only) legitimately re-charges the resident key; charge, callback and C06 clauses are not decided there (counted)"],
     ),
